@@ -48,16 +48,20 @@ import numpy as np
 import twoindex
 from lib import XShell, call_impl, exp_cap, run_cases, short_float, shrink_shell_json, sx
 
-RULE = ("basis level: 1-3 shells on 1-3 centres, every shell K in 1..4, M in 1..4, l in 0..4 (every (K, M, l) triple "
-        "occurs as the rewritten shell on every run), Cartesian / spherical / mixed, centres k/16, exponents "
-        "log-uniform 0.02..cap(l) with 8-bit mantissas, coefficients k/8 with exact zeros; rewrites: segment (every "
-        "generalized shell or one), perm (quick: a seeded sample incl. reversal; thorough: all K! permutations), "
-        "split (adjacent or appended, d1 up to 8|d|), scale (c 2^e, c in {1, 3/2, 5/4}, e in -20..20, both signs; "
-        "every e occurs); every module on every case (ERI on bases of <= 12 functions, Ehrenfest Hessian on a "
-        "third); block level: construct_array_contraction of all nine kernel classes for every (K, M) in 1..4^2 "
-        "and l in 0..4, all K! permutations, all (ma, mb) slices, splits, column factors, additivity / homogeneity; "
-        "exact model on both sides for a seeded subset (small l). Non-trivial: the rewritten input differs from "
-        "the original and the compared arrays are not identically zero; distinct by the hash of the exact input")
+RULE = ("basis level: 1-3 shells on 1-3 centres, every (K, M, l) in 1..4 x 1..4 x 0..4 occurs as the rewritten shell "
+        "on every run (thorough: 10 times), Cartesian / spherical / mixed, centres k/16, exponents log-uniform "
+        "0.02..cap(l) with 8-bit mantissas, coefficients k/8 with exact zeros; rewrites: segment, perm (quick: one "
+        "seeded permutation incl. reversals; thorough: all K! permutations), split (adjacent or appended, |d1| up to "
+        "8|d|, zero coefficients split too), scale (c 2^e, c in {1, 3/2, 5/4}, e drawn without replacement from "
+        "-20..20, both signs), in 30% of the cases a second rewrite of another shell and in 15% segmentation after "
+        "the rewrite; every public module on every case (ERI on bases of <= 12 Cartesian functions and l <= 2 (3 in "
+        "thorough), Ehrenfest Hessian on a third, a transform on a quarter); block level: "
+        "construct_array_contraction of all nine kernel classes for every (K, M) in 1..4^2 and l in 0..4 (ERI l <= "
+        "1/2), partner shells with the same K and another M half of the time, all K! permutations, all column "
+        "slices, splits, column factors and norm_cont, additivity / homogeneity; setter level: shells rewritten in "
+        "place through the coeffs / exps setters + assign_norm_cont(); exact model on both sides for a seeded "
+        "subset (l <= 2, K <= 3). Non-trivial: the rewritten input differs from the original and the compared "
+        "arrays are not identically zero; distinct by the hash of the exact input")
 ASSUMPTIONS = [
     "floating-point rounding of the NumPy pipeline is not modelled: 'unchanged' is decided with tolerance 1e-9 "
     "relative to the magnitude of the (normalised) result",
